@@ -1039,6 +1039,10 @@ impl<R: Read> Deserializer<R> {
             let hdr = if old(self).elem_format_code is Some { 0int } else { 1int };
             final(self).handed@->Some_0.unread_at =~= old(self).reader.unread().skip(hdr + 1 + eff_unread(*old(self))[1] as int)
         }),                                                                                                      // [C05.array.empty-array-body-consumed] an EMPTY array that carries its element constructor (`e0 02 00 a3`: size 2 = count octet + constructor) is consumed whole: the octets its size field announces belong to it, they are not left in the stream for the next value
+        final(self).handed@ is Some && eff_unread(*old(self))[0] == 0xf0 && final(self).handed@->Some_0.count == 0 && old(self).reader.consumed() + old(self).reader.unread().len() + 1 < usize::MAX ==> ({
+            let hdr = if old(self).elem_format_code is Some { 0int } else { 1int };
+            final(self).handed@->Some_0.unread_at =~= old(self).reader.unread().skip(hdr + 4 + sp_be32(eff_unread(*old(self)).subrange(1, 5)) as int)
+        }),                                                                                                      // [C05.array.empty-array-body-consumed] the same for array32 (`f0 00000005 00000000 a3`): size field (4 octets) plus the `size` octets it announces
         // completeness: a well-formed array8 header (AMQP 1.0 part 1, 1.6.24: size >= count octet + element constructor; any count 0..=255, since elements may be zero octets wide) is accepted
         old(self).reader.reliable() && valid_array8_header(eff_unread(*old(self))) && eff_unread(*old(self))[2] <= eff_unread(*old(self))[1] ==> final(self).handed@ is Some,    // [C05.array8.every-valid-header-accepted] (count <= size field)
         old(self).reader.reliable() && valid_array8_header(eff_unread(*old(self))) && eff_unread(*old(self))[2] > eff_unread(*old(self))[1] ==> final(self).handed@ is Some,     // [C05.array8.zero-width-elements-count-above-size] a count above the size field is valid when the elements are zero octets wide (null, true, false, uint0, ulong0, list0)
